@@ -6,8 +6,8 @@ package main
 // evaluated afterwards in the same global scope. Payload = evPayload(program) and
 // evPayload(probe) sections joined by " @ " (source + tree built by the REAL parser).
 //
-// Compared observable:  <outcome of the program>;<outcome of probe 1>;…;G <canonical dump of
-// the global scope>;LOG <ordered marker trace>   where an outcome is
+// Compared observable:  <outcome of the program>;G <canonical dump of the global scope>;LOG <ordered marker trace>;
+// <outcome of probe 1> L <its trace>;…;G <dump after the probes>   where an outcome is
 // OK <canonical value> | ERR <error type> | ERRPLAIN | NOPARSE | V ERR <type>
 // (no message text, no position, functions print as "func").
 //
@@ -27,6 +27,7 @@ import (
 
 	"github.com/krotik/ecal/parser"
 	"github.com/krotik/ecal/scope"
+	"github.com/krotik/ecal/verifhook"
 )
 
 const c05Sep = " @ "
@@ -87,8 +88,37 @@ func c05Canon(v interface{}, d int) string {
 	return evCanonD(v, d)
 }
 
+// call frames as the real code builds them (hook point func.frame in function.Run, hooks/C05.patch: called after the
+// parameters are bound and the frame is linked): scope name, name of the scope it is linked to, and the names it
+// holds at that moment (sorted). c05FrameHook is false on a tree without the hook: the F section then says so.
+var (
+	c05Frames    []string
+	c05FrameHook bool
+)
+
+func c05FrameHandler(point string, args ...interface{}) {
+	if point != "func.frame" || len(args) < 2 {
+		return
+	}
+	fvs, ok := args[1].(parser.Scope)
+	if !ok || fvs.Parent() == nil {
+		return
+	}
+	decl := fvs.Parent() // the scope the frame is REALLY linked to
+	var names []string
+	for k := range scope.ToObject(fvs) {
+		names = append(names, hx(fmt.Sprint(k)))
+	}
+	sort.Strings(names)
+	c05Frames = append(c05Frames, hx(fvs.Name())+">"+hx(decl.Name())+"["+strings.Join(names, ",")+"]")
+}
+
 func c05Setup() {
 	evSetup()
+	verifhook.SetHandler(c05FrameHandler)
+	c05Frames = nil
+	c05Outcome(scope.NewScope(scope.GlobalScope), "func f() {\n}\nf()")
+	c05FrameHook = len(c05Frames) > 0
 	registerX("mark", func(args []interface{}) (interface{}, error) {
 		parts := make([]string, len(args))
 		for i, a := range args {
@@ -118,23 +148,49 @@ func c05Outcome(vs parser.Scope, src string) string {
 	return "OK " + c05Canon(res, evCanonDepth)
 }
 
-func c05Run(payload string) string {
-	evLog.reset()
-	vs := scope.NewScope(scope.GlobalScope)
-	var outs []string
-	for _, sec := range strings.Split(payload, c05Sep) {
-		// "<chained> [~ <as is>] ~ <spec>": the real code runs the first program (see c05Chains)
-		sec = strings.SplitN(sec, c05Alt, 2)[0]
-		src := unhx(strings.SplitN(sec, " ", 2)[0])
-		outs = append(outs, c05Outcome(vs, src))
-	}
+func c05Dump(vs parser.Scope) string {
 	obj := scope.ToObject(vs)
 	items := make([]string, 0, len(obj))
 	for k, v := range obj {
 		items = append(items, c05Canon(k, evCanonDepth-1)+":"+c05Canon(v, evCanonDepth-1))
 	}
 	sort.Strings(items)
-	return strings.Join(outs, ";") + ";G " + strings.Join(items, " ") + ";LOG " + evLog.String()
+	return strings.Join(items, " ")
+}
+
+func c05LogFrom(i int) (string, int) {
+	evLog.mu.Lock()
+	defer evLog.mu.Unlock()
+	return strings.Join(evLog.entries[i:], "|"), len(evLog.entries)
+}
+
+// Result: <program outcome>;G <global dump after the program>;LOG <trace of the program>;F <call frames of the
+// program>;<probe 1 outcome> L <trace of probe 1>;…;G <global dump after the probes>.  The model prints U for a probe section it cannot give (and for every
+// section after a probe that left the model); props/C05.py compares section by section and accepts U.
+func c05Run(payload string) string {
+	evLog.reset()
+	c05Frames = nil
+	vs := scope.NewScope(scope.GlobalScope)
+	var outs []string
+	n := 0
+	for i, sec := range strings.Split(payload, c05Sep) {
+		// "<chained> [~ <as is>] ~ <spec>": the real code runs the first program (see c05Chains)
+		sec = strings.SplitN(sec, c05Alt, 2)[0]
+		src := unhx(strings.SplitN(sec, " ", 2)[0])
+		out := c05Outcome(vs, src)
+		var lg string
+		lg, n = c05LogFrom(n)
+		if i == 0 {
+			fr := "F nohook"
+			if c05FrameHook {
+				fr = "F " + strings.Join(c05Frames, "|")
+			}
+			outs = append(outs, out, "G "+c05Dump(vs), "LOG "+lg, fr)
+		} else {
+			outs = append(outs, out+" L "+lg)
+		}
+	}
+	return strings.Join(outs, ";") + ";G " + c05Dump(vs)
 }
 
 // ---------------------------------------------------------------- directed families
@@ -158,6 +214,12 @@ var c05Shapes = []struct {
 	}},
 	{"except", func(o, in string) string {
 		return "try {\nraise(\"E\")\n} except {\n" + o + "\n" + in + "\n}"
+	}},
+	{"condition loop", func(o, in string) string {
+		return "c := 2\nfor c > 0 {\nc := c - 1\n" + o + "\n" + in + "\n}"
+	}},
+	{"loop with continue and break", func(o, in string) string {
+		return "for c in [1, 2, 3, 4] {\nif c == 2 {\ncontinue\n}\n" + o + "\n" + in + "\nif c == 3 {\nbreak\n}\n}"
 	}},
 	{"otherwise", func(o, in string) string {
 		return "try {\nx.mark(0)\n} except {\nx.mark(9)\n} otherwise {\n" + o + "\n" + in + "\n}"
@@ -767,7 +829,7 @@ func init() {
 			}
 			for _, s := range []string{"len()", "len(1)", "len(\"s\")", "len(null)", "add()", "add([1])", "add(1, 2)", "add({}, 1)", "del()", "del([1])", "del(1, 2)", "del([1], 1)",
 				"del([1], -1)", "del([1], \"0\")", "add([1], 2, 2)", "add([1], 2, -1)", "add([1], 2, \"0\")", "concat()", "concat([1])", "concat([1], 2)", "concat([1], [2], {})",
-				"concat([], [])", "len(concat([1], [2, 3], []))", "del({1: 2}, 1)", "del({\"1\": 2}, 1)", "len({1: 2, \"1\": 3})", "len([[1, 2]])", "add([1], [2])", "add([], null)"} {
+				"concat([], [])", "len(concat([1], [2, 3], []))", "type(1)", "type([1, null])", "type(null)", "type()", "type(\"s\")", "type(true)", "del({1: 2}, 1)", "del({\"1\": 2}, 1)", "len({1: 2, \"1\": 3})", "len([[1, 2]])", "add([1], [2])", "add([], null)"} {
 				emit("builtin argument checks", "a := "+s+"\nx.mark(a)", "a")
 			}
 			// (6) objects
